@@ -1,6 +1,38 @@
-//! Job kinds of this property (see lib/prop_*.py). Returns None for kinds it does not know.
-use serde_json::Value;
+//! Job kinds of C15 (see lib/prop_c15.py). Returns None for kinds it does not know.
+//!
+//! `c15_build`: {"modes": [...]} -> the outcome class of `build_uncached()` and of `build()`
+//! (both under catch_unwind; "ok" | "syntax" | "unsupported" | "io" | "empty" | "panic") with the
+//! error or panic text, and the ASTs of all patterns and lookaheads as the crate's own parser
+//! sees them (`{"k":"syntax_error"}` for a string that does not parse).
+use std::panic::{catch_unwind, AssertUnwindSafe};
 
-pub fn run(_kind: &str, _job: &Value) -> Option<Value> {
-    None
+use serde_json::{json, Value};
+
+fn short(s: &str) -> String {
+    s.chars().take(300).collect()
+}
+
+pub fn run(kind: &str, job: &Value) -> Option<Value> {
+    match kind {
+        "c15_build" => {
+            let modes_json = &job["modes"];
+            let modes = match catch_unwind(AssertUnwindSafe(|| crate::modes_from_json(modes_json))) {
+                Ok(m) => m,
+                Err(p) => {
+                    return Some(json!({"harness_error": format!("modes: {}", crate::panic_message(p))}));
+                }
+            };
+            // uncached first: a panic inside the cached build poisons the cache lock for the
+            // rest of the process
+            let (_, ucls, umsg) = crate::build(&modes, false);
+            let (_, ccls, cmsg) = crate::build(&modes, true);
+            let (asts, _) = crate::asts_of(modes_json);
+            Some(json!({
+                "uncached": ucls, "uncached_err": short(&umsg),
+                "cached": ccls, "cached_err": short(&cmsg),
+                "asts": asts,
+            }))
+        }
+        _ => None,
+    }
 }
